@@ -84,6 +84,11 @@ def check(run):
         immutable = (v["const"] or v["constexpr"]) and not v["mutable_fields"] and not v["tls"]
         if v.get("ptr") and not v.get("pointee_const", True):
             immutable = False
+        if v["tls"] and not (v.get("ptr") or (v.get("t") or "").endswith(("*", "&"))):
+            # one object per thread: instances used by different threads never meet in it (what it does to instances that
+            # share a thread is a question of the property whose values it caches, not of thread safety)
+            run.ob("R20.1", "static:%s" % short(v["qn"]), True, v["file"], v["line"], "thread_local object of type %s: not shared between threads" % v["t"])
+            continue
         where = "function-local static in %s" % v["infunc"] if v.get("staticlocal") else ("static member" if v.get("staticmember") else "namespace scope")
         run.ob("R20.1", "static:%s" % short(v["qn"]) + ("@%s" % short(v.get("infunc", "")) if v.get("staticlocal") else ""), immutable,
                v["file"], v["line"],
